@@ -108,6 +108,12 @@ fn main() {
         "selftest-model" => selftest_model(),
         "serve" => serve::serve(),
         #[cfg(feature = "pm")]
+        "crash-child" => {
+            let txt = std::fs::read_to_string(args.get("trace").unwrap_or("")).unwrap_or_default();
+            let tv: Value = serde_json::from_str(&txt).unwrap_or(Value::Null);
+            e1_store::crash_child(&tv, args.u64("exit-at", 1), std::path::Path::new(args.get("ack").unwrap_or("/dev/null")), std::path::Path::new(args.get("scratch").unwrap_or("/tmp")))
+        }
+        #[cfg(feature = "pm")]
         "transcript" => {
             let t = match util::guarded(|| e5::transcript(args.u64("seed", 1))) {
                 Ok(t) => t,
@@ -354,6 +360,38 @@ fn run_e1store(args: &Args, run_seed: u64, known: &HashSet<String>, dir: &std::p
     local.traces.insert(d);
     if local.samples.len() < 2 && trace.steps.len() <= 8 {
         local.samples.push(e1_store::replay_json(&trace, Some((3, false))));
+    }
+    if args.flag("crash") {
+        // the history in a child process that exits at storage write k, for every k it reaches
+        let mut t = trace.clone();
+        t.nodes = vec![if run_seed % 7 == 0 { "rlnp".to_string() } else { "pmp".to_string() }];
+        let mut k = 1u64;
+        loop {
+            let r = e1_store::run_crash(&t, k, dir);
+            local.runs += 1;
+            local.steps += t.steps.len() as u64;
+            local.counters.merge(&r.counters);
+            if let Some(e) = r.harness_error {
+                local.harness_errors.push(format!("seed {run_seed} k={k}: {e}"));
+                break;
+            }
+            if let Some(v) = r.violation {
+                local.violations.push(json!({
+                    "violation": v.to_json(),
+                    "trace": e1_store::crash_replay_json(&t, k),
+                    "original_steps": t.steps.len(),
+                    "shrink_runs": 0,
+                    "seed": run_seed.to_string(),
+                }));
+                break;
+            }
+            if !r.exited_at_k || k >= args.u64("max-k", 150) {
+                break;
+            }
+            local.nontrivial.insert(d ^ (k << 20));
+            k += 1;
+        }
+        return;
     }
     if args.flag("l2") {
         // one real sled write failure per run (process-global failpoint: single-threaded batch)
